@@ -422,44 +422,51 @@ def run(run):
     tables = [clientbound.handshake, clientbound.status, clientbound.login,
               clientbound.play, serverbound.handshake, serverbound.status,
               serverbound.login, serverbound.play]
+    # The (version, class) cases are visited in a seeded *shuffled* order, so
+    # that behaviour depending on which versions were used before (module- or
+    # class-level caches) has newer-then-older sequences to show itself in.
+    cases = []
     case = 0
     for pv in minecraft.SUPPORTED_PROTOCOL_VERSIONS:
-        ctx = ConnectionContext(protocol_version=pv)
+        ctx0 = ConnectionContext(protocol_version=pv)
         for mod in tables:
-            classes = sorted(mod.get_packets(ctx),
+            classes = sorted(mod.get_packets(ctx0),
                              key=lambda k: (k.__module__, k.__qualname__))
             for K in classes:
                 case += 1
-                if not run.mine(case):
-                    continue
-                run.seen('classes', K.__module__.split('.')[-3][0] + ':' +
-                         K.__qualname__)
-                name = K.__name__
-                if is_custom(K, Packet) and name not in custom:
-                    run.inconclusive_because(
-                        'class %s has a hand-written codec and no registered '
-                        'generator' % K.__qualname__)
-                    continue
-                for rep in range(reps):
-                    try:
-                        if name in custom and is_custom(K, Packet):
-                            attrs, cmps, skip = custom[name](ctx, rep)
-                        else:
-                            attrs, cmps = {}, []
-                            for field in K.get_definition(ctx):
-                                for fname, ftype in field.items():
-                                    v, c = G.value(ftype, ctx)
-                                    attrs[fname] = v
-                                    cmps.append((fname, c))
-                    except KeyError as e:
-                        run.inconclusive_because(str(e))
-                        break
-                    run.case((pv, name, rep, repr(sorted(attrs.items(),
-                                                         key=lambda i: i[0]))),
-                             nontrivial=True)
-                    roundtrip(run, K, ctx, attrs, cmps, rep, PacketBuffer)
-                    if case % 997 == 0 and rep == 0:
-                        run.sample({'pv': pv, 'class': name, 'fields': attrs})
+                if run.mine(case):
+                    cases.append((case, pv, K))
+    rng.shuffle(cases)
+    for case, pv, K in cases:
+        ctx = ConnectionContext(protocol_version=pv)
+        run.seen('classes', K.__module__.split('.')[-3][0] + ':' +
+                 K.__qualname__)
+        name = K.__name__
+        if is_custom(K, Packet) and name not in custom:
+            run.inconclusive_because(
+                'class %s has a hand-written codec and no registered '
+                'generator' % K.__qualname__)
+            continue
+        for rep in range(reps):
+            try:
+                if name in custom and is_custom(K, Packet):
+                    attrs, cmps, skip = custom[name](ctx, rep)
+                else:
+                    attrs, cmps = {}, []
+                    for field in K.get_definition(ctx):
+                        for fname, ftype in field.items():
+                            v, c = G.value(ftype, ctx)
+                            attrs[fname] = v
+                            cmps.append((fname, c))
+            except KeyError as e:
+                run.inconclusive_because(str(e))
+                break
+            run.case((pv, name, rep, repr(sorted(attrs.items(),
+                                                 key=lambda i: i[0]))),
+                     nontrivial=True)
+            roundtrip(run, K, ctx, attrs, cmps, rep, PacketBuffer)
+            if case % 997 == 0 and rep == 0:
+                run.sample({'pv': pv, 'class': name, 'fields': attrs})
 
     # ---- programs: generated field-list definitions -------------------------
     leaf = [T.Boolean, T.UnsignedByte, T.Byte, T.Short, T.UnsignedShort,
